@@ -1,12 +1,34 @@
-(* C14 - provisional: replaced when the per-node proof files are complete. *)
-From Coq Require Import List ZArith.
+(* C14 - latest delivers an in-order subsequence ending with the newest element.
+   Statements restated from the proof files by harness/mkprops.py; every theorem quantifies over ALL action
+   lists (schedules of emits, consumer completions, task completions, time advances). *)
+From Coq Require Import List ZArith Bool Arith Permutation Sorted.
 From SZ Require Import Base.Values.
 From SZ Require Import Sync.Nodes.
 From SZ Require Import Async.Core.
-From SZ Require Import Async.Plain.
+From SZ Require Async.LatestProofs.
 Import ListNotations.
 
-Theorem C14_callback_only_at_zero : forall s m r,
-  In r (rfired (rc_release s m 1)) -> In r (rfired s) \/ (rcnt s r - mocc m r <= 0)%Z /\ (1 <= mocc m r)%Z.
-Proof. exact rfired_release_new. Qed.
-Print Assumptions C14_callback_only_at_zero.
+(* from Async.LatestProofs *)
+Section S_latest_subseq_LatestProofs.
+Import SZ.Async.LatestProofs.
+Theorem C14_latest_subseq : forall (sync : bool) (acts : list act) (s : nm_state Latest.latest_model) (outs : list (list (Z * val * list mdi) * list nat)), run_steps Latest.latest_model (Latest.l_init sync) acts = (s, outs) -> Sublist (deliv_items (all_deliv outs)) (ins_of acts).
+Proof. exact (@latest_subseq). Qed.
+End S_latest_subseq_LatestProofs.
+Print Assumptions C14_latest_subseq.
+
+(* from Async.LatestProofs *)
+Section S_latest_final_LatestProofs.
+Import SZ.Async.LatestProofs.
+Theorem C14_latest_final : forall (sync : bool) (acts : list act) (s : nm_state Latest.latest_model) (outs : list (list (Z * val * list mdi) * list nat)) (d : val * list mdi), run_steps Latest.latest_model (Latest.l_init sync) acts = (s, outs) -> Latest.l_busy s = None -> Latest.l_fresh s = false /\ (ins_of acts <> [] -> last (deliv_items (all_deliv outs)) d = last (ins_of acts) d).
+Proof. exact (@latest_final). Qed.
+End S_latest_final_LatestProofs.
+Print Assumptions C14_latest_final.
+
+(* from Async.LatestProofs *)
+Section S_latest_done_LatestProofs.
+Import SZ.Async.LatestProofs.
+Theorem C14_latest_done : forall (sync : bool) (acts : list act) (s : nm_state Latest.latest_model) (outs : list (list (Z * val * list mdi) * list nat)), run_steps Latest.latest_model (Latest.l_init sync) acts = (s, outs) -> all_done outs = seq 0 (n_emits acts).
+Proof. exact (@latest_done). Qed.
+End S_latest_done_LatestProofs.
+Print Assumptions C14_latest_done.
+
